@@ -80,11 +80,11 @@ def bounds(tier):
     if tier == "quick":
         return {"max_leaves": 5, "layers": ["none", "unit", "cyc123", "pow2", "partial"],
                 "layers_at_max": ["none", "unit", "cyc123", "pow2", "partial"],
-                "internal_taxa_max_leaves": 4, "containers_max_leaves": 4, "unifurcation_max_leaves": 4,
+                "internal_taxa_max_leaves": 4, "internal_taxa_internal_prune_sets_only_at": 5, "containers_max_leaves": 4, "unifurcation_max_leaves": 4,
                 "node_extract_max_leaves": 5, "subsets": "all non-empty"}
     return {"max_leaves": 6, "layers": ["none", "unit", "cyc123", "pow2", "partial"],
             "layers_at_max": ["none", "pow2", "partial"],
-            "internal_taxa_max_leaves": 5, "containers_max_leaves": 5, "unifurcation_max_leaves": 5,
+            "internal_taxa_max_leaves": 5, "internal_taxa_internal_prune_sets_only_at": 6, "containers_max_leaves": 5, "unifurcation_max_leaves": 5,
             "node_extract_max_leaves": 6, "subsets": "all non-empty"}
 
 
@@ -103,6 +103,10 @@ def chunks(tier):
         step = 2 if n >= 5 else 4
         for lo in range(0, ns, step):
             out.append({"kind": "itaxa", "n": n, "lo": lo, "hi": min(ns, lo + step), "tier": tier})
+    n = b["internal_taxa_max_leaves"] + 1      # one size further, prune sets of internal-node taxa only
+    ns = len(U.shapes(n))
+    for lo in range(0, ns, 40):
+        out.append({"kind": "itaxa", "n": n, "lo": lo, "hi": min(ns, lo + 40), "tier": tier, "internal_only": True})
     for n in range(1, b["containers_max_leaves"] + 1):
         ns = len(U.shapes(n))
         step = 20 if n >= 5 else 30
@@ -498,6 +502,17 @@ def _after_inplace(ctx, case, sn, tree, bit, keep, drop_empty, removed_subtrees,
     want = filtered(sn, keep, drop_empty, suppress, removed_subtrees)
     other = filtered(sn, keep, drop_empty, not suppress, removed_subtrees)
     lenient = upd and not rooted
+    if case.get("itaxa") and case["flags"][1]:
+        stray = sorted(x for x in ref.leaves(got) if x is not None and x.startswith("X") and x in case["remove"])
+        if stray:
+            # its own defect class: an internal node named in the prune set whose children were all
+            # removed earlier in the same call is no longer "internal" when the traversal reaches it
+            ctx.violation(_sig(case, "internal-node-filter|node-emptied-by-the-same-call-is-kept"),
+                          "%s(%s, is_apply_filter_to_leaf_nodes=%r, is_apply_filter_to_internal_nodes=True) on %s gave %s: the node(s) with taxon %s "
+                          "were to be pruned but are still in the tree (as leaves); expected %s" % (
+                              case["api"], case["remove"], case["flags"][0], ref.to_newick(sn), ref.to_newick(got), stray,
+                              ref.to_newick(want)), case)
+            return
     _report_difference(ctx, case, sn, got, want, other, keep, unrooted_lenient=lenient)
     if upd:
         _check_encoding(ctx, case, tree, bit)
@@ -915,9 +930,10 @@ def run_itaxa(chunk, ctx):
         alltax = list(labels) + itax
         base = {"n": n, "shape": shape, "lens": "pow2", "ns": "exact", "itaxa": True, "rooted": True}
         ctx.count("source_trees_with_internal_taxa")
-        for remove in all_subsets(alltax):
+        internal_only = bool(chunk.get("internal_only"))
+        for remove in all_subsets(itax if internal_only else alltax):
             rm = frozenset(remove)
-            for flags in ((True, False), (True, True), (False, True)):
+            for flags in (((True, True), (False, True)) if internal_only else ((True, False), (True, True), (False, True))):
                 fl, fi = flags
                 keep = frozenset(l for l in labels if not (fl and l in rm))
                 rsub = frozenset(nd[1] for c, nd in cl if nd[3] and nd[0] in rm) if fi else frozenset()
